@@ -399,6 +399,47 @@ func c09Worker(w *W) {
 			}(g)
 		}
 		wg.Wait()
+		// keys nobody has formatted before, met by all goroutines at the same moment (spin barrier per key): whatever an
+		// encoder remembers about keys, every goroutine's document carries the escaped key - the first user's and the
+		// one that arrives while the first is still at work
+		{
+			R := 300
+			keys := make([]string, R)
+			for i := range keys {
+				b := []byte(fmt.Sprintf("fresh-%d-%d-", w.Spec.Shard, i))
+				for k := 4 + r.IntN(60); k > 0; k-- {
+					b = append(b, pool[r.IntN(len(pool))])
+				}
+				if i%2 == 0 {
+					b = append(b, '\n', '"', 0xff)
+				}
+				keys[i] = string(b)
+			}
+			var arrive, badK atomic.Int64
+			var wg2 sync.WaitGroup
+			for g := 0; g < G; g++ {
+				wg2.Add(1)
+				go func() {
+					defer wg2.Done()
+					for i := 0; i < R && badK.Load() == 0; i++ {
+						arrive.Add(1)
+						for spins := 0; arrive.Load() < int64((i+1)*G) && badK.Load() == 0; spins++ {
+							if spins%64 == 63 {
+								runtime.Gosched()
+							}
+						}
+						if why := c09layouts(keys[i]); why != "" && badK.Add(1) == 1 {
+							report(keys[i], fmt.Sprintf("%d goroutines use a never-seen key at the same moment: %s", G, why), "layout")
+						}
+					}
+				}()
+			}
+			wg2.Wait()
+			w.Count("fresh_keys_met_in_lockstep", int64(R))
+			if badK.Load() == 0 {
+				w.Distinct(fmt.Sprintf("fresh-keys-lockstep|G=%d|%s", G, w.Spec.Flavour))
+			}
+		}
 		w.Count("concurrent_escapes_compared", int64(6*n*G))
 		if bad.Load() == 0 {
 			w.Distinct(fmt.Sprintf("concurrent|G=%d|%s", G, w.Spec.Flavour))
